@@ -180,6 +180,17 @@ EXTRA_PROGRAMS: Dict[str, Dict[str, Any]] = {
     "small-and-large-floats": {"root.yaml": {"constants": {"TICK_S": "0.00005", "FRAME_S": "TICK_S * 400", "N_TICKS": 20000, "SPAN_S": "N_TICKS * TICK_S", "EPS": "0.000000125",
                                                            "EPS2": "EPS + EPS", "BIG": "12000000000000000.0", "BIG_HALF": "BIG / 2", "N_BINS": "SPAN_S * 8"},
                                              "message_defs": {"SF": {"id": 4114, "fields": {"a": "double[N_BINS]", "b": "int16[FRAME_S * 100]"}}}}},
+    # files of one name in different directories (one per device, each called defs.yaml; a project file that happens to carry the
+    # name of a core file)
+    "same-file-name-in-two-directories": {"root.yaml": {"imports": ["arm/defs.yaml", "hand/defs.yaml", "data_logger.yaml"],
+                                                        "message_defs": {"MS": {"id": 4115, "fields": {"a": "ARM_POSE", "h": "HAND_POSE", "n": "LOG_NOTE"}}}},
+                                          "arm/defs.yaml": {"struct_defs": {"ARM_POSE": {"fields": {"q": "double[4]"}}}, "message_defs": {"ARM_CMD": {"id": 4116, "fields": {"p": "ARM_POSE"}}}},
+                                          "hand/defs.yaml": {"struct_defs": {"HAND_POSE": {"fields": {"f": "float[2]"}}}, "message_defs": {"HAND_CMD": {"id": 4117, "fields": {"p": "HAND_POSE"}}}},
+                                          "data_logger.yaml": {"struct_defs": {"LOG_NOTE": {"fields": {"t": "char[8]"}}}, "message_defs": {"LOG_MARK": {"id": 4118, "fields": None}}}},
+    # one expression that mentions many constants (a sum over a dozen channel counts), also as an array length
+    "expression-with-many-constants": {"root.yaml": {"constants": {**{f"N_CH{i}": i + 1 for i in range(14)}, "N_TOTAL": " + ".join(f"N_CH{i}" for i in range(14)),
+                                                                   "N_ELEVEN": " + ".join(f"N_CH{i}" for i in range(11)), "N_TWICE": "N_TOTAL * 2"},
+                                                     "message_defs": {"MC": {"id": 4119, "fields": {"a": "int16[N_TOTAL]", "b": "char[" + " + ".join(f"N_CH{i}" for i in range(12)) + "]"}}}}},
     "nested-depth": {"root.yaml": {"struct_defs": {"L1": {"fields": {"a": "int32"}}, "L2": {"fields": {"l": "L1[2]", "b": "int32"}}, "L3": {"fields": {"l": "L2[2]", "c": "int32"}}},
                                    "message_defs": {"MS": {"id": 4104, "fields": {"l": "L3[2]", "m": "L1"}}}}},
     "imports-chain": {"root.yaml": {"imports": ["a.yaml"], "message_defs": {"MS": {"id": 4105, "fields": {"s": "SB", "t": "ALB"}}}},
@@ -196,6 +207,7 @@ EXTRA_PROGRAMS: Dict[str, Dict[str, Any]] = {
 EXTRA_CONSTANTS = {
     "overlapping-constant-names": {"TOTAL": 32, "REV": 32, "SUM": 21, "MIX": 4, "AREA": 12, "CHANS": 4, "N10": 11},
     "constants-and-expressions": {"N": 3, "F": 2.5, "M2": 7, "NEG": -4, "HEXV": 16, "EXPR": 20},
+    "expression-with-many-constants": {"N_TOTAL": 105, "N_ELEVEN": 66, "N_TWICE": 210},
     "small-and-large-floats": {"TICK_S": 0.00005, "FRAME_S": 0.00005 * 400, "SPAN_S": 20000 * 0.00005, "EPS2": 0.000000125 + 0.000000125, "BIG_HALF": 12000000000000000.0 / 2, "N_BINS": 20000 * 0.00005 * 8},
 }
 EXTRA_SIZES = {"overlapping-constant-names": {"ST": 2 * 32 + 21 + 8 + 1, "MS": 2 * 32 + 21 + 8 + 1 + 2 + 4 * 8}}
